@@ -6,7 +6,7 @@ rows = []
 for f in sorted(glob.glob(V + "/sweeps/C*.tsv")):
     pid = os.path.basename(f)[:-4]
     for line in open(f):
-        kind, name, verdict, key, by = (line.rstrip("\n").split("\t") + ["", "", "", "", ""])[:5]
+        kind, name, verdict, key, by, seed = (line.rstrip("\n").split("\t") + ["", "", "", "", "", ""])[:6]
         needs = ""
         if kind == "seed":
             m = os.path.join(V, "seeded", name, "meta.json")
@@ -15,11 +15,11 @@ for f in sorted(glob.glob(V + "/sweeps/C*.tsv")):
                 needs = meta.get("needs_to_manifest", "")
                 if meta.get("note", "").startswith("superseded") and verdict != "VIOLATION":
                     verdict = "SUPERSEDED"  # a later repair removed the code path the change lived in (meta.json says which)
-        rows.append((pid, kind, name, verdict, key.replace("key=", ""), needs, by))
+        rows.append((pid, kind, name, verdict, key.replace("key=", ""), needs, by, seed))
 out = ["| property | kind | change | result of `check <property> --mutant` | first violation key | needs, to manifest |", "|---|---|---|---|---|---|"]
 tot = {}
 other = 0
-for pid, kind, name, verdict, key, needs, by in rows:
+for pid, kind, name, verdict, key, needs, by, seed in rows:
     res = {"VIOLATION": "caught", "HELD": "not caught", "INCONCLUSIVE": "inconclusive", "SUPERSEDED": "no longer a break (superseded by a repair, see its meta.json)"}.get(verdict, verdict)
     if verdict == "SUPERSEDED":
         out.append("| %s | %s | %s | %s | `%s` | %s |" % (pid, kind, name, res, key, needs))
@@ -27,6 +27,8 @@ for pid, kind, name, verdict, key, needs, by in rows:
     if by:
         res = "not by %s; caught by `check %s`" % (pid, by)
         other += 1
+    if seed:
+        res += " (at VERIF_SEED=%s, not at the default seed)" % seed
     out.append("| %s | %s | %s | %s | `%s` | %s |" % (pid, kind, name, res, key, needs))
     t = tot.setdefault(kind, [0, 0]); t[1] += 1; t[0] += verdict == "VIOLATION"
 summary = "; ".join("%s: %d of %d caught by the property's own check" % (k, v[0], v[1]) for k, v in sorted(tot.items())) + "; %d further seeds caught by the check of the property whose workload they fall under" % other
